@@ -7,6 +7,7 @@ let () =
   let eval, oracle = match domain with
     | "semver" -> D_semver.eval, D_semver.oracle
     | "ranges" | "rangeord" | "rangeq" -> D_ranges.eval, D_ranges.oracle
+    | "terms" | "bitset" -> D_terms.eval, D_terms.oracle
     | _ -> failwith "unknown domain" in
   let n = ref 0 in
   (try
